@@ -33,6 +33,10 @@ class St:
             return '%s{%s}' % (self.ty, ', '.join('%s: %r' % (n, v) for n, v in zip(self.names, self.f)))
         return '%s(%s)' % (self.ty or '', ', '.join(repr(v) for v in self.f))
 
+    @property
+    def short(self):
+        return self.ty.split('::')[-1] if self.ty else ''
+
     def get(self, name):
         return self.f[self.names.index(name)]
 
@@ -53,6 +57,10 @@ class En:
         if not self.f:
             return '%s' % (self.var,)
         return '%s(%s)' % (self.var, ', '.join(repr(v) for v in self.f))
+
+    @property
+    def short(self):
+        return self.ty.split('::')[-1] if self.ty else ''
 
     def get(self, name):
         return self.f[self.names.index(name)]
